@@ -235,7 +235,7 @@ fn tame(tape: &mut [Fault]) {
 fn truncate_writer(w: &mut WriterScript, max_total: u64) {
     let mut total = 0u64;
     for s in w.steps.iter_mut() {
-        if let WStep::Send(n) = s {
+        if let WStep::Send(n) | WStep::Write(n) = s {
             let room = max_total.saturating_sub(total);
             if (*n as u64) > room {
                 *n = room as u32;
